@@ -420,6 +420,34 @@ func c08Specs(tier string) []*h.SeqSpec {
 				}
 			}
 		}
+		// a finishing PUT whose state token is well formed but names another offset: "refused without altering the session"
+		for _, off := range []int{-1, +1} {
+			off := off
+			name := map[int]string{-1: "stale", 1: "future"}[off]
+			ops = append(ops, h.Op{Name: "PUT s1 last=\"\" digest=right state=" + name, Do: func(w *h.World) []h.Violation {
+				s := sessM(w).S["s1"]
+				if s == nil || !s.Open || len(s.Bytes)+off < 0 {
+					return nil
+				}
+				r := w.Do(h.Req{Method: "PUT", Path: s.Path, Query: "state=" + stateToken(len(s.Bytes)+off) + "&digest=" + url.QueryEscape(dg("sha256", s.Bytes)), Body: []byte{}})
+				var vs []h.Violation
+				if r.Status < 400 || r.Status >= 500 {
+					vs = append(vs, h.V("wrong-offset-refused", "put-with-"+name+"-state-not-refused", "PUT on s1 (%d bytes received) with the state token of offset %d answered %s", len(s.Bytes), len(s.Bytes)+off, r))
+					if r.Status == 201 {
+						s.Open = false
+					}
+					return vs
+				}
+				alive, n, _, g := c08Status(w, s)
+				if !alive {
+					vs = append(vs, h.V("refusal-leaves-session", "session-ended-by-refused-put:"+name+"-state", "the PUT with a %s state token was refused (%s), and the session is gone afterwards: status query answers %s", name, r, g))
+					s.Open = false
+				} else if n != len(s.Bytes) {
+					vs = append(vs, h.V("refusal-leaves-session", "session-altered-by-refused-put:"+name+"-state", "the refused PUT changed the bytes the session reports from %d to %d", len(s.Bytes), n))
+				}
+				return vs
+			}})
+		}
 		for _, sl := range slots[:2] {
 			sl := sl
 			ops = append(ops, h.Op{Name: "DELETE " + sl, Do: func(w *h.World) []h.Violation {
